@@ -638,6 +638,10 @@ pub fn check(a: CheckArgs) -> i32 {
             "X" => {
                 if done.get(&j).copied().unwrap_or(false) {
                     live -= 1;
+                } else if rest.contains("exit status: 70") {
+                    // the harness itself panicked (see /dev/shm/tftpd-sim-harness-panics.log): never a verdict
+                    harness_errors.push(format!("worker {j} hit a harness panic in run {}", last_b.get(&j).copied().unwrap_or(j)));
+                    live -= 1;
                 } else {
                     // the child died in the middle of a run: that is a finding of its own
                     let r = last_b.get(&j).copied().unwrap_or(j);
